@@ -1,0 +1,47 @@
+//go:build verif
+
+// PRoPHET contracts (C19) for the govc verifier (see /verif/DESIGN.md §2.5: float64 as mathematical reals). Comment-only.
+
+package routing
+
+// govc:spec probsOK(p map[bpv7.EndpointID]float64) bool = forall e bpv7.EndpointID :: 0 <= p[e] && p[e] <= 1
+
+// An encounter never lowers a value and keeps it a probability; all other entries are untouched.
+// govc:func (*Prophet).encounter property C19
+//@ requires prophet.predictabilities != nil && 0 <= prophet.config.PInit && prophet.config.PInit <= 1
+//@ requires probsOK(prophet.predictabilities)
+//@ assigns mapof(prophet.predictabilities)
+//@ ensures 0 <= prophet.predictabilities[peer] && prophet.predictabilities[peer] <= 1 && prophet.predictabilities[peer] >= old(prophet.predictabilities[peer])
+//@ ensures forall e bpv7.EndpointID :: prophet.predictabilities[e] >= old(prophet.predictabilities[e])
+//@ ensures probsOK(prophet.predictabilities)
+
+// Ageing never raises a value and keeps it a probability.
+// govc:func (*Prophet).agePred property C19
+//@ requires prophet.predictabilities != nil && 0 <= prophet.config.Gamma && prophet.config.Gamma <= 1
+//@ requires probsOK(prophet.predictabilities)
+//@ assigns mapof(prophet.predictabilities)
+//@ ensures 0 <= prophet.predictabilities[peer] && prophet.predictabilities[peer] <= old(prophet.predictabilities[peer])
+//@ ensures forall e bpv7.EndpointID :: prophet.predictabilities[e] <= old(prophet.predictabilities[e])
+//@ ensures probsOK(prophet.predictabilities)
+
+// The transitive update never lowers a value and keeps every value a probability (any iteration order).
+// govc:func (*Prophet).transitivity property C19
+//@ requires prophet.predictabilities != nil && prophet.peerPredictabilities != nil && 0 <= prophet.config.Beta && prophet.config.Beta <= 1
+//@ requires probsOK(prophet.predictabilities)
+//@ requires probsOK(prophet.peerPredictabilities[peer])
+//@ ghost k bpv7.EndpointID
+//@ assigns mapof(prophet.predictabilities)
+//@ ensures probsOK(prophet.predictabilities)
+//@ ensures prophet.predictabilities[k] >= old(prophet.predictabilities[k])
+//@ loop 0 invariant prophet.predictabilities != nil && probsOK(prophet.predictabilities)
+//@ loop 0 invariant prophet.predictabilities[k] >= old(prophet.predictabilities[k])
+//@ loop 0 invariant probsOK(peerPredictabilities)
+
+// govc:func (*Prophet).ageCron property C19
+//@ requires prophet.predictabilities != nil && 0 <= prophet.config.Gamma && prophet.config.Gamma <= 1
+//@ requires probsOK(prophet.predictabilities)
+//@ ghost k bpv7.EndpointID
+//@ assigns mapof(prophet.predictabilities)
+//@ ensures probsOK(prophet.predictabilities)
+//@ ensures prophet.predictabilities[k] <= old(prophet.predictabilities[k])
+//@ loop 0 invariant probsOK(prophet.predictabilities) && prophet.predictabilities[k] <= old(prophet.predictabilities[k]) && prophet.predictabilities != nil
